@@ -65,12 +65,16 @@ Definition n_statements (s : string) : nat := length (fst (split_M s)).
 Definition accepted_emits (s : string) : option nat :=
   match parse_model_nocheck s with POk syms => Some (n_emitted syms) | _ => None end.
 
-(* #24: an unclosed fence swallows every later line: three more non-blank lines, no statement, no error *)
+(* #24 REPAIRED (85765d5): an unclosed fence used to swallow every later line silently; it is now a ParserError *)
 Definition unclosed_fence : string := lines ["Y = X"; "```"; "foo = 1"; "Z = W"].
-Example unclosed_fence_drops_statements :
-  parse_model_nocheck unclosed_fence = parse_model_nocheck "Y = X" /\ accepted_emits unclosed_fence = Some 1 /\
-  n_statements unclosed_fence = 1 /\ final_state s0 (model_lines unclosed_fence) = Some (mkS 0 false ["Z = W"; "foo = 1"; "```"]).
+Example unclosed_fence_is_error :
+  parse_model_nocheck unclosed_fence = PErr ParserError /\ parse_model_nocheck "```" = PErr ParserError /\
+  final_state s0 (model_lines unclosed_fence) = Some (mkS 0 false ["Z = W"; "foo = 1"; "```"]) /\
+  split_M unclosed_fence = (["Y = X"], Some ParserError).
 Proof. vm_compute. repeat split; reflexivity. Qed.
+(* the fence test comes before the bracket test; both are ParserError *)
+Example open_fence_and_open_bracket : split_M (lines ["```"; "x = ("]) = ([], Some ParserError).
+Proof. vm_compute. reflexivity. Qed.
 (* two identical statements are merged into one equation (Y = Y + 1 twice is evaluated once) *)
 Definition duplicate_statements : string := lines ["Y = Y[-1] + 1"; "Y = Y[-1] + 1"].
 Example duplicate_statements_merge : n_statements duplicate_statements = 2 /\ accepted_emits duplicate_statements = Some 1.
